@@ -110,7 +110,7 @@ def check(ctx):
     ctx.trusted = ["rustc MIR construction; typenum Prod/Quot semantics (Prod<N,M>::USIZE = N*M, Quot<NM,N>::USIZE = floor(NM/N))",
                    "C01: GenericArray<X, L> is L contiguous X"]
     ctx.assumptions = ["unflatten is used on its documented domain (N divides NM); outside it the owned form panics in const_transmute and the reference forms give a shorter in-bounds view"]
-    cfgs = ["F0", "F1"] if ctx.tier == "quick" else ["F0", "F1", "F2"]
+    cfgs = ["F0", "F1", "F1N"] if ctx.tier == "quick" else ["F0", "F1", "F1N", "F2", "F0N", "F2N"]
     ctx.need(*cfgs)
     for cfg in cfgs:
         check_const_transmute(ctx, cfg)
